@@ -139,9 +139,12 @@ Variable O : oracles.
 
 Definition print_node (n : node) : str := ntype n ++ [c_lt] ++ nid n ++ [c_gt].
 
+(* F24: an anchor whose zone offset has seconds is printed in UTC (RFC3339 has no seconds in the offset) *)
+Definition norm_anchor (t : time) : time := if (t_off t mod 60 =? 0)%Z then t else mkTime (t_ns t) 0.
+
 Definition print_pred (p : pred) : str :=
   o_quote O (pid p) ++ [x40; x5b] ++
-  match panchor p with None => [] | Some t => o_fmt_time O t end ++ [x5d].
+  match panchor p with None => [] | Some t => o_fmt_time O (norm_anchor t) end ++ [x5d].
 
 Definition print_lit_value (l : literal) : str :=
   match l with
